@@ -228,6 +228,32 @@ pub fn check_with(c: &EncCase, strict: Strictness, ctx: &Ctx) -> Verdict {
         let priced = planner_price_of_witness(c, body, pre, &w.script);
         let priced = priced.map(|p| p + pre);
         let priced_fits = priced.map_or(false, |p| p <= w.cap);
+        // further legal encodings that fit the same capacity: the reference optimum under each single
+        // latched mode (with and without ASCII beside it).  If the planner can follow one of them but
+        // prices it beyond the capacity it demonstrably fits, its cost model is wrong for that form -
+        // even if it prices the overall optimum correctly (the search may have lost that one, D13).
+        let mut overpriced_alt: Option<(usize, Vec<Step>, usize)> = None;
+        for m in [2u8, 4, 8, 16, 32] {
+            if c.modes & m == 0 {
+                continue;
+            }
+            for with_ascii in [true, false] {
+                let sub = if with_ascii { m | (c.modes & 1) } else { m };
+                if with_ascii && c.modes & 1 == 0 {
+                    continue;
+                }
+                if let Some((alen, ascript)) = min_len(body, w.cap, pre, sub) {
+                    if let Some(p) = planner_price_of_witness(c, body, pre, &ascript) {
+                        if p + pre > w.cap && overpriced_alt.is_none() {
+                            overpriced_alt = Some((alen, ascript, p + pre));
+                        }
+                    }
+                }
+            }
+        }
+        if overpriced_alt.is_some() {
+            bump("suboptimal_with_an_overpriced_single_mode_alternative");
+        }
         bump(match priced {
             None => "witness_unpriceable_by_planner",
             Some(_) if priced_fits => "witness_priced_fits(search lost it)",
@@ -294,11 +320,14 @@ pub fn check_with(c: &EncCase, strict: Strictness, ctx: &Ctx) -> Verdict {
             // space: a switch inside an "unbeatable" run) or prices it as fitting the smaller symbol, i.e.
             // the search merely lost it.  A witness the planner can follow but prices as NOT fitting is a
             // defect of the cost model (a mode or end-of-data form priced too high), not of the search.
-            let model_agrees = priced.map_or(true, |p| p <= w.cap);
+            let model_agrees = priced.map_or(true, |p| p <= w.cap) && overpriced_alt.is_none();
             if attributed && model_agrees {
                 return Verdict::Known(FAMILY_SIG.to_string());
             }
             if attributed {
+                if let Some((alen, ascript, ap)) = &overpriced_alt {
+                    return fail(format!("{} [not attributable to the open planner finding: the planner's own cost model prices the legal encoding {:?} (real length {}, fits capacity {}) at {} codewords]", reason, ascript, alen, w.cap, ap));
+                }
                 return fail(format!("{} [not attributable to the open planner finding: the planner's own cost model prices the witness path at {} codewords, more than its real length {} and than the capacity {} it fits]", reason, priced.unwrap_or(0), w.len, w.cap));
             }
             return fail(format!("{} [not attributable to the open planner finding: planner stats {:?}]", reason, stats));
